@@ -104,6 +104,23 @@ def token_of(n):
     return None
 
 
+def _tokens_deep(F, fn, depth, seen):
+    """stream tokens of a functor body, following draco helpers it calls (two levels)"""
+    out = []
+    if fn.key in seen or depth > 2:
+        return out
+    seen.add(fn.key)
+    for n, b, rk, ev in fn.calls():
+        tok = token_of(n)
+        if tok is not None:
+            out.append(tok)
+        elif n.get("k") == "call" and (n.get("fn") or "").startswith("draco::") and \
+                not strip_targs(n.get("fn") or "").startswith(("draco::DecoderBuffer::", "draco::EncoderBuffer::")):
+            for t in F.targets(n):
+                out += _tokens_deep(F, t, depth + 1, seen)
+    return out
+
+
 def _version_truth(cond, cur_version):
     """Truth value of a pure bitstream-version test on the current version."""
     t2, pos = _strip_not(cond, True)
@@ -139,10 +156,26 @@ def selector_map(F, fn_base, quantity, cur_version, version_side):
         in_loop = set()
         for h, body, l in fn.loops():
             in_loop |= body
+        sites = []
         for n, b, rk, ev in fn.calls():
             tok = token_of(n)
             if tok is None or b not in in_loop or b not in live:
                 continue
+            sites.append((tok, b))
+        # per-width read/write functors handed to a shared loop helper: the tokens inside a lambda that is
+        # written under the condition belong to that case (`DecodeRawFaces(n, [&](uint32_t *v) { ... })`)
+        for blk, rk, tree, ev in fn.roots():
+            if tree is None or blk.id not in live:
+                continue
+            for n in walk(tree):
+                if n.get("k") not in ("lambda", "fn") or not n.get("m"):
+                    continue
+                body = F.by_m.get(n["m"])
+                if body is None:
+                    continue
+                for tok in _tokens_deep(F, body, 0, set()):
+                    sites.append((tok, n.get("b", blk.id)))
+        for tok, b in sites:
             atoms = set()
             for cb in fn.blocks.values():
                 if cb.cond is None or len(cb.succ) != 2 or cb.labels is not None or cb.id not in live:
